@@ -17,6 +17,10 @@ Modelled after (function by function, current /repo):
 * `ObtainQuantity(unit, category, unknown_unit_caption)` with its third argument, the branch for a
   dict of composing units (derived quantities, `Quantity.CreateEmpty()`), `units.GetUnknownQuantity`,
   `Quantity.__eq__` (composing map and caption), `CreateEmptyScalar` / `CreateEmptyArray`;
+* the legacy constructor `Quantity(category, unit, caption)` called directly (`quantityInit`);
+* `ObtainQuantity([(unit, exponent), …], [category, …], caption)` (list/tuple unit with a list/tuple of
+  categories: `obtainPairs`), `CreateWithQuantity(q, values, value=…)` with the value given twice
+  (`createWithQuantityBoth`);
 * histories on a private `UnitDatabase()`: registrations (`Barril/Model/Reg.lean`) interleaved with
   `GetDefaultCategory` questions and groups of construction forms; every question is answered from
   the current registry alone (`hstep`).
@@ -282,6 +286,23 @@ def newQuantityC (db : Db) (category : Atom) (u : Sym) (cap : Atom) : Except Err
 /-- `Quantity(category, unit)` -/
 def newQuantity (db : Db) (category : Atom) (u : Sym) : Except ErrKind Qty := newQuantityC db category u .none
 
+/-- the legacy constructor `Quantity(category, unit, unknown_unit_caption)` called directly (a private
+instance, no cache): caption, then category (a `str` that is registered), then the unit — `None`
+stands for the category's default unit, anything else that is no `str` is a `TypeError` -/
+def quantityInit (db : Db) (category unit cap : Atom) : Except ErrKind Qty :=
+  match unit with
+  | .str u _ => newQuantityC db category u cap
+  | other =>
+    match capOf cap with
+    | .error e => .error e
+    | .ok _ =>
+      match category with
+      | .str c _ =>
+        match db.catByName c with
+        | Option.none => .error .units
+        | some ci => if other.isNone then newQuantityC db category ci.defaultUnit cap else .error .type
+      | _ => .error .type
+
 def optAtom : Option Sym → Atom
   | some c => .str c Option.none
   | Option.none => .none
@@ -402,6 +423,30 @@ def obtainDict (db : Db) (items : List (Sym × Sym × Int)) (cap : Atom) : Excep
       match capOf cap with
       | .error e => .error e
       | .ok cp => .ok ⟨0, 0, cp, some items⟩
+
+/-- `OrderedDict[c] = (u, e)`: a new key goes to the end, an existing key keeps its place -/
+def odictSet : List (Sym × Sym × Int) → Sym → Sym → Int → List (Sym × Sym × Int)
+  | [], c, u, e => [(c, u, e)]
+  | (c', u', e') :: rest, c, u, e =>
+    if c' == c then (c, u, e) :: rest else (c', u', e') :: odictSet rest c u e
+
+/-- `OrderedDict((cat, unit_and_exp) for (cat, unit_and_exp) in zip(category, unit))` -/
+def odictZip (cats : List Sym) (pairs : List (Sym × Int)) : List (Sym × Sym × Int) :=
+  (cats.zip pairs).foldl (fun d (x : Sym × Sym × Int) => odictSet d x.1 x.2.1 x.2.2) []
+
+/-- `ObtainQuantity([(unit, exponent), …], [category, …], caption)` — unit a list or tuple of pairs,
+category a list or tuple of names: one pair with exponent 1 is "a simple case" (`unit[0][0]` with
+`category[0]`, an `IndexError` when there is none); anything else is zipped into an `OrderedDict` and
+goes the way of a dict of composing units (which may again turn out to be a simple case) -/
+def obtainPairs (db : Db) (pairs : List (Sym × Int)) (cats : List Sym) (cap : Atom) : Except ErrKind Qty :=
+  match pairs with
+  | [(u, e)] =>
+    if e == 1 then
+      match cats with
+      | c :: _ => newQuantityC db (.str c Option.none) u cap
+      | [] => .error .index
+    else obtainDict db (odictZip cats pairs) cap
+  | _ => obtainDict db (odictZip cats pairs) cap
 
 /-- `if unknown_caption:` -/
 def Atom.truthyStr : Atom → Bool
@@ -583,6 +628,18 @@ def createWithQuantity (db : Db) (cls : Cls) (q : Qty) (a2 : PyVal) (kw : Bool) 
     else if kw then arrayInternal q .none a2 else arrayInternal q a2 .none
   | .fixed _ =>
     if kw then fixedInternal q .none a2 Option.none dimKw else fixedInternal q a2 .none Option.none dimKw
+
+/-- `cls.CreateWithQuantity(quantity, a2, value=a3)`: the value given positionally AND by keyword.
+Scalar's and FractionScalar's method call their second parameter `value` ("got multiple values for
+argument 'value'": `TypeError`); the array classes have both `values` and `value` and refuse two
+values ("Duplicated values parameter given") -/
+def createWithQuantityBoth (cls : Cls) (q : Qty) (a2 : PyVal) (a3 : Atom) (dimKw : Option Int) :
+    Except ErrKind Obj :=
+  match cls with
+  | .scalar => .error .type
+  | .fraction => .error .type
+  | .array => if dimKw.isSome then .error .type else arrayInternal q a2 (.atom a3)
+  | .fixed _ => fixedInternal q a2 (.atom a3) Option.none dimKw
 
 /-- what every documented form is meant to amount to for a quantity `q` and a value `x`:
 FixedArray's dimension check, then `_InternalCreateWithQuantity(q, x)` (specification helper: the
@@ -790,6 +847,10 @@ inductive QExpr
   | dq (items : List (Sym × Sym × Int)) (cap : Atom)
   /-- `units.GetUnknownQuantity(caption)` -/
   | unk (cap : Atom)
+  /-- `ObtainQuantity([(unit, exponent), …], [category, …], caption)` -/
+  | oql (pairs : List (Sym × Int)) (cats : List Sym) (cap : Atom)
+  /-- `Quantity(category, unit, caption)` -/
+  | nq (category unit cap : Atom)
 deriving DecidableEq, Repr
 
 def QExpr.eval (db : Db) : QExpr → Except ErrKind PyVal
@@ -806,6 +867,14 @@ def QExpr.eval (db : Db) : QExpr → Except ErrKind PyVal
     match unknownQuantity db cap with
     | .ok q => .ok (.qty q)
     | .error e => .error e
+  | .oql pairs cats cap =>
+    match obtainPairs db pairs cats cap with
+    | .ok q => .ok (.qty q)
+    | .error e => .error e
+  | .nq c u cap =>
+    match quantityInit db c u cap with
+    | .ok q => .ok (.qty q)
+    | .error e => .error e
 
 inductive CallKind
   /-- `Cls(a1, a2, a3)` -/
@@ -814,6 +883,8 @@ inductive CallKind
   | cwq
   /-- `Cls.CreateEmptyScalar(a1)` / `Cls.CreateEmptyArray([dimension,] a1)` -/
   | empty
+  /-- `Cls.CreateWithQuantity(a1, a2, value=a3)` / `(…, dimension=d)` -/
+  | cwq2
 deriving DecidableEq, Repr
 
 structure Call where
@@ -842,6 +913,10 @@ def runCall (db : Db) (f : Call) : Option (Except ErrKind Obj) :=
       | .cwq =>
         match a1 with
         | .qty q => some (createWithQuantity db f.cls q a2 f.kw f.dimKw)
+        | _ => Option.none
+      | .cwq2 =>
+        match a1 with
+        | .qty q => some (createWithQuantityBoth f.cls q a2 f.a3 f.dimKw)
         | _ => Option.none
 
 /-- the database a registry is: the rows in the iteration order of `quantity_types`, the categories
